@@ -33,6 +33,8 @@ pub struct Delivered {
     pub same_struct: bool,
     /// decoded content equals the base's (None when it does not decode)
     pub same_content: Option<bool>,
+    /// the decoded content differs from the base's in the proof-of-work nonce only
+    pub only_nonce_differs: bool,
     pub usage: Usage,
 }
 
@@ -164,8 +166,9 @@ fn fingerprint<B: SimField, H: ElementHasher<BaseField = B>>(p: &Proof) -> Optio
         out.push(0xE2);
         elems::<E>(&rb, &mut out)?;
         // num_partitions: layout-only metadata, excluded on purpose
-        out.extend_from_slice(&p.pow_nonce.to_le_bytes());
         p.gkr_proof.write_into(&mut out);
+        // the nonce goes last (8 bytes) so that "differs in the nonce only" can be told apart
+        out.extend_from_slice(&p.pow_nonce.to_le_bytes());
         Some(out)
     }
     match p.options().field_extension() {
@@ -213,13 +216,18 @@ impl<B: SimField, H: ElementHasher<BaseField = B> + Send + Sync + 'static> Base 
         let proof = match parsed {
             Ok(Ok(p)) => p,
             Ok(Err(e)) => {
-                return Delivered { parse: ParseRes::Err(variant_name(&format!("{:?}", e))), verify: None, same_struct: false, same_content: None, usage: u1 }
+                return Delivered { parse: ParseRes::Err(variant_name(&format!("{:?}", e))), verify: None, same_struct: false, same_content: None, only_nonce_differs: false, usage: u1 }
             },
-            Err(p) => return Delivered { parse: ParseRes::Panic(p), verify: None, same_struct: false, same_content: None, usage: u1 },
+            Err(p) => return Delivered { parse: ParseRes::Panic(p), verify: None, same_struct: false, same_content: None, only_nonce_differs: false, usage: u1 },
         };
         let same_struct = proof == self.proof;
         // (re-encoding a hostile proof may hit writer-side assertions: treat that as "does not decode")
-        let same_content = if same_struct { Some(true) } else { guard(|| fingerprint::<B, H>(&proof)).ok().flatten().map(|f| f == self.fingerprint) };
+        let fp = if same_struct { None } else { guard(|| fingerprint::<B, H>(&proof)).ok().flatten() };
+        let same_content = if same_struct { Some(true) } else { fp.as_ref().map(|f| *f == self.fingerprint) };
+        let only_nonce_differs = match &fp {
+            Some(f) => f.len() == self.fingerprint.len() && f.len() >= 8 && f[..f.len() - 8] == self.fingerprint[..f.len() - 8] && f != &self.fingerprint,
+            None => false,
+        };
         let mut ins = self.case.inputs.clone();
         if inputs == Inputs::Perturbed {
             ins.values[0][0] += B::ONE;
@@ -235,6 +243,7 @@ impl<B: SimField, H: ElementHasher<BaseField = B> + Send + Sync + 'static> Base 
             verify: Some(v),
             same_struct,
             same_content,
+            only_nonce_differs,
             usage: Usage { max_request: u1.max_request.max(u2.max_request), total: u1.total + u2.total },
         }
     }
@@ -306,6 +315,15 @@ impl<'a> Job for BuildJob<'a> {
         }
         None
     }
+}
+
+/// an honest proof of a freshly generated case (any config / extension / flavour), drawn from
+/// the run's own tape: the AIR shape varies per run instead of being one of the ~30 bases
+pub fn fresh_base(ch: &mut Chooser) -> Option<Box<dyn Base>> {
+    let cfg = CONFIGS[ch.index("fresh.cfg", CONFIGS.len())];
+    let ext = [FieldExtension::None, FieldExtension::Quadratic, FieldExtension::Cubic][ch.index("fresh.ext", 3)];
+    let flavour = ch.weighted("fresh.flavour", &[3, 2, 1, 1]);
+    dispatch(cfg, BuildJob { ch, cfg, ext, flavour })
 }
 
 static BASES: OnceLock<(u64, Vec<Box<dyn Base>>)> = OnceLock::new();
